@@ -55,7 +55,7 @@ def expectLogs (s : State) : List SwapLog → State
       let burnt : State := { s with evm := AMap.set s.evm (c, l.src) (evmBal s c l.src - l.amount.toNat) }
       match (AMap.get? s.contracts c).bind (AMap.get? s.tokens) with
       | none => expectLogs burnt rest
-      | some t => expectLogs { burnt with bank := burnt.bank.mint l.to t.minUnit l.amount.toNat } rest
+      | some t => expectLogs { burnt with bank := burnt.bank.mint l.rcv t.minUnit l.amount.toNat } rest
 
 /-- native supply + ERC20 supply of every bound token of `pre` is the same in `post` -/
 def combinedSame (pre post : State) : Bool :=
